@@ -319,6 +319,34 @@ func (e *env) deep(tr *trie.Trie, exp expState) string {
 			return fmt.Sprintf("node at path %x (%d bytes) reported as hashed, specification embeds it", n.Path, len(n.Blob))
 		}
 	}
+	// iteration from a start key: exactly the entries at or after it, ascending
+	if len(e.universe) > 0 {
+		start := e.universe[e.r.Intn(len(e.universe))]
+		if e.r.Intn(3) == 0 { // a start key that is no model key
+			start = append(append([]int{}, start[:len(start)-1]...), 7)
+		}
+		sit, err := tr.NodeIterator(e.key(start))
+		if err != nil {
+			return "NodeIterator(start): " + err.Error()
+		}
+		var from []tk.KV
+		kit := trie.NewIterator(sit)
+		for kit.Next() {
+			from = append(from, tk.KV{K: tk.KeyNibs(kit.Key, e.pad), V: tk.ValID(kit.Value)})
+		}
+		if kit.Err != nil {
+			return "Iterator(start) error: " + kit.Err.Error()
+		}
+		var want []tk.KV
+		for _, x := range exp.KV {
+			if bytes.Compare(e.key(x.K), e.key(start)) >= 0 {
+				want = append(want, x)
+			}
+		}
+		if fmt.Sprint(from) != fmt.Sprint(want) {
+			return fmt.Sprintf("iteration from %v yields %v, specification (entries at or after it, ascending) %v", start, from, want)
+		}
+	}
 	// nodes emitted by the streaming builder = stored nodes of the model tree
 	wantSt := []string{}
 	for _, n := range ref.Nodes {
